@@ -73,6 +73,7 @@ type cfg struct {
 	exec    string // inline | go | pool
 	hist    [][]req
 	cut     int // split the first connection's request stream at this offset (0: one burst)
+	cut2    int // and once more at this offset (> cut; 0: two pieces): three reads, the second of which finds a retained tail, completes tokens and leaves a tail again
 	respLen int
 	k       int
 	p, d    int
@@ -91,6 +92,9 @@ func (c cfg) name() string {
 	}
 	if c.realPool {
 		x += " real-pool"
+	}
+	if c.cut2 > 0 {
+		x = fmt.Sprintf(" cut2=%d", c.cut2) + x
 	}
 	return fmt.Sprintf("%s exec=%s hist=%v cut=%d resp=%d K=%d%s", c.mode, c.exec, c.hist, c.cut, c.respLen, c.k, x)
 }
@@ -198,7 +202,9 @@ func body(c cfg) func() {
 			i, x := i, x
 			data := encode(i, c.hist[i])
 			vsched.GoNamed(fmt.Sprintf("client%d", i), func() {
-				if i == 0 && c.cut > 0 && c.cut < len(data) {
+				if i == 0 && c.cut > 0 && c.cut2 > c.cut && c.cut2 < len(data) {
+					return // sent by the main thread, see below
+				} else if i == 0 && c.cut > 0 && c.cut < len(data) {
 					x.peer.WriteAll(data[:c.cut])
 					x.peer.WriteAll(data[c.cut:])
 				} else {
@@ -206,6 +212,14 @@ func body(c cfg) func() {
 				}
 			})
 			vsched.GoNamed(fmt.Sprintf("drain%d", i), func() { x.peer.Drain() })
+		}
+		if data := encode(0, c.hist[0]); c.cut > 0 && c.cut2 > c.cut && c.cut2 < len(data) {
+			// three pieces, each read (and its answers produced) before the next one is sent
+			cps[0].peer.WriteAll(data[:c.cut])
+			vsched.WaitIdle()
+			cps[0].peer.WriteAll(data[c.cut:c.cut2])
+			vsched.WaitIdle()
+			cps[0].peer.WriteAll(data[c.cut2:])
 		}
 		vsched.WaitIdle()
 		// ---- oracle
@@ -395,6 +409,13 @@ func build(tier string) []*vkit.Scenario {
 								p-- // two connections x two requests each: the full bound only level-triggered in quick
 							}
 							add(cfg{mode: m, exec: e, hist: h, cut: cut, respLen: rl, k: k, p: p})
+							if cut == 20 && !two {
+								// three pieces (the middle one starts inside a header line, completes
+								// it and ends inside the next line / the next request)
+								for _, c2 := range []int{30, 45} {
+									add(cfg{mode: m, exec: e, hist: h, cut: cut, cut2: c2, respLen: rl, k: k, p: p})
+								}
+							}
 						}
 					}
 				}
